@@ -53,7 +53,7 @@ def main():
         hooks_commits = [l.split()[0] for l in open(hc) if l.strip() and not l.startswith("#")]
     man = {
         "version": 1,
-        "setup_cmd": "cd harness && cargo build --release --offline --lib && (cargo build --release --offline --bins --keep-going || true)",
+        "setup_cmd": "cd harness && cargo build --release --offline --lib && (cargo build --release --offline --bins --keep-going || true) && (cargo build --profile plain --offline --bins --keep-going || true)",
         "hooks": {
             "guard": "--cfg bio_verif",
             "enable": "harness/.cargo/config.toml passes rustflags --cfg bio_verif to the path dependency on /repo",
